@@ -113,6 +113,25 @@ def constructed(rng):
         for da in (0, 0, 1, -1):
             if abs(a + da) <= M:
                 add(G.fD(sg(rng, a + da), p), G.fD(sg(rng, b), q))
+    # divisors of EVERY bit length 2..126 on the digit-wise branch (the dividend cannot be up-scaled), the running
+    # remainder as large as it gets (y - 1 - small), scale differences 1 / 8 / 15..18 (step sizes derived from the
+    # divisor's bit length or leading zeros)
+    for L in range(2, 127):
+        for k in (1, 8, 15, 16, 17, 18, rng.randrange(1, 19)):
+            y = rng.choice(((1 << L) - 1, 1 << (L - 1), rng.getrandbits(L) | (1 << (L - 1))))
+            if y < 2:
+                continue
+            lo = M // P10[k] + 1                     # x * 10^k does not fit
+            if lo + y > M:
+                continue
+            t = rng.randrange(lo // y + 1, M // y + 1) if M // y > lo // y else None
+            if t is None:
+                continue
+            x = t * y - 1 - rng.choice((0, 0, 1, rng.randrange(0, max(1, y // 1000))))
+            if not lo <= x <= M:
+                continue
+            p = rng.randrange(0, 19 - k)
+            add(G.fD(x * rng.choice((1, -1)), p), G.fD(y * rng.choice((1, -1)), p + k))
     # identical operands (x % x; the driver also runs `&x % &x` with both references to one object)
     for s in range(19):
         for c in (1, -1, 5, P10[s], M, -M, rng.randrange(-M, M) or 1, G.small_coeff(rng, 60) or 1):
